@@ -137,6 +137,9 @@ class CarbonClientProtocol(object):
         instrumentation.prior_stats.get('metricsReceived', 0)))
 
     self.sendDatapointsNow(self.factory.takeSomeFromQueue())
+    # Compare what is left *after* this batch with the low watermark: the batch
+    # that empties the queue is the last time this method does anything.
+    queueSize = self.factory.queueSize
     if (self.factory.queueFull.called and queueSize < SEND_QUEUE_LOW_WATERMARK):
       if not self.factory.queueHasSpace.called:
         self.factory.queueHasSpace.callback(queueSize)
